@@ -14,6 +14,24 @@ const LEVELS: [log::LevelFilter; 6] = [log::LevelFilter::Off, log::LevelFilter::
 
 fn gen_sequence(rng: &mut Rng, srv: &[u8], len: usize) -> Vec<(usize, Vec<u8>)> {
     let nsocks = 8;
+    // one sequence in six carries a solid run of 33..=64 valid requests of ONE protocol (the
+    // deepest proof paths a batch can need), with a few hostile datagrams before and after
+    if len >= 8 && rng.chance(1, 6) {
+        let classic = rng.chance(1, 2);
+        let run = rng.range(33, 64) as usize;
+        let mut v: Vec<(usize, Vec<u8>)> = Vec::new();
+        for _ in 0..rng.below(3) {
+            v.push((rng.usize_below(nsocks), hostile(rng, srv).data));
+        }
+        for _ in 0..run {
+            let d = if classic { valid_classic(rng).data } else { valid_ietf(rng, Some(srv)).data };
+            v.push((rng.usize_below(nsocks), d));
+        }
+        for _ in 0..rng.below(3) {
+            v.push((rng.usize_below(nsocks), hostile(rng, srv).data));
+        }
+        return v;
+    }
     (0..len)
         .map(|_| {
             let s = rng.usize_below(nsocks);
